@@ -136,12 +136,18 @@ def oracle(run: runner.Run, oc: Outcome) -> None:
             # of ours is pending afterwards.
             if want in HANDLER_REASONS and s.how == 'returned':
                 state_after = s.writes[-1].after if s.writes else view
-                adjusted = any(st.has_finalizer(w.before) != st.has_finalizer(w.after) and w.after is not None
-                               and (w.after.get('metadata') or {}).get('deletionTimestamp') is None
+                # (a JSON-patch is how the finalizer is adjusted; a rejected one is an attempt all the same)
+                adjusted = any(str(w.content_type or '').startswith('application/json-patch') and w.before is not None
+                               and (w.before.get('metadata') or {}).get('deletionTimestamp') is None
                                for w in s.writes)
                 unconfirmed = s.consistency_time is not None
                 ran = [c for c in s.calls if c.hkind in common.CHANGE_KINDS]
-                if not adjusted and (ran or not unconfirmed) and not st.records(state_after):
+                final_now = {st.key_name(c.hid) for c in ran if changes.final_outcome(c, hspecs.get(c.hid, {}))}
+                # (a purge that did not land -- e.g. the object vanished between the requests -- leaves records
+                # behind although the process considers the cycle completed)
+                open_recs = [k for k, r in st.records(state_after).items()
+                             if not common.finished(r) and k not in final_now]
+                if not adjusted and (ran or not unconfirmed) and not open_recs:
                     pending = [c for c in ran if not changes.final_outcome(c, hspecs.get(c.hid, {}))]
                     if not pending:
                         handled_once[s.actor] = True
